@@ -20,6 +20,33 @@ TOLERANT = {"UseDefaultValues", "AssignDefaultValues", "IndicateErrorIfNullOrUns
 BOTH = {"ParameterLength"}
 
 
+FRESH_PARAMS_ENTRY_POINTS = {
+    "brush_core::shell::Shell::run_dash_c_command": "front-end (-c)",
+    "brush_core::shell::Shell::run_script": "front-end (script file)",
+    "brush_core::shell::Shell::load_config": "start-up files",
+    "brush_core::shell::Shell::load_history": "start-up (history file open)",
+    "brush_core::shell::Shell::expand_prompt_var": "prompt expansion between commands",
+    "brush_core::shell::Shell::on_exit": "EXIT trap at shell exit (no enclosing construct)",
+    "brush_core::completion::Spec::get_completions": "programmable completion (line editor, between commands)",
+    "brush_core::completion::Spec::call_completion_command": "programmable completion (line editor)",
+    "brush_core::completion::Spec::call_completion_function": "programmable completion (line editor)",
+    "brush_core::completion::get_file_completions": "programmable completion (line editor)",
+    "brush_interactive::interactive_shell::InteractiveShell::execute_line": "front-end (interactive / stdin line)",
+    "brush_interactive::interactive_shell::InteractiveShell::run_pre_prompt_actions": "PROMPT_COMMAND between commands",
+    "brush_interactive::interactive_shell::InteractiveShell::run_pre_exec_actions": "pre-exec hook between commands",
+    "brush_interactive::interactive_shell::InteractiveShell::run_pre_prompt_command": "PROMPT_COMMAND between commands",
+}
+
+
+def _copies_flag(b, st):
+    """does the struct literal's suppress_errexit operand come from an existing (argument-rooted) parameters value?"""
+    op = st.rv.field_ops().get("suppress_errexit")
+    if op is None:
+        return False
+    os_ = origins(b, defs_of(b), op, transparent=set())
+    return bool(os_) and all(o.kind in ('arg', 'unknown') and "suppress_errexit" in o.field_path() for o in os_)
+
+
 def _recv_fields(b, t):
     d = defs_of(b)
     fs = set()
@@ -225,6 +252,43 @@ def run(prog, chk):
                 chk.ok("R3.4", "subst-errexit", "errexit cleared on the clone, only when the inherit option is off, before the spawn", function=fn)
             else:
                 chk.fail("R3.4", fn, "subst-errexit", "errexit handling of command substitution broken: on_clone=%s exclusive_to_!inherit=%s before_spawn=%s" % (on_clone, exclusive, before))
+
+    # ---- R3.6 exemption travels with the parameters ------------------------------------------------------
+    chk.rule("R3.6", "ExecutionParameters (which carries suppress_errexit) is only ever *cloned* into nested executions: struct literals exist "
+                     "only in the derived Clone/Default impls, Default::default is called only by Shell::default_exec_params, and "
+                     "default_exec_params only by the reviewed top-level entry points")
+    EPT = "brush_core::interp::ExecutionParameters"
+    nagg = 0
+    for b in prog.all_bodies(SHIPPED):
+        for bl in b.blocks:
+            if bl.cleanup:
+                continue
+            for st in bl.stmts:
+                if st.kind == 'a' and st.rv.kind == 'agg' and st.rv.adt == EPT:
+                    nagg += 1
+                    fn = owner(b.name)
+                    if "Clone@core" in st.exp or "Default@core" in st.exp:
+                        chk.ok("R3.6", "derived:" + fn, "derived impl", nontrivial=False, function=fn)
+                    elif _copies_flag(b, st):
+                        chk.ok("R3.6", "literal-copies-flag:" + fn, "struct literal takes suppress_errexit from an existing parameters value", function=fn)
+                    else:
+                        chk.fail("R3.6", fn, "params-struct-literal",
+                                 "%s builds an ExecutionParameters with a struct literal at %s: fields not listed (suppress_errexit) silently fall back to their defaults, "
+                                 "so the errexit exemption of the enclosing context is lost at this boundary" % (fn, b.loc(st.line)))
+    chk.floor("R3.6", "ExecutionParameters aggregates (derived impls)", nagg, 2)
+    dflt = {owner(b.name) for b, _, _ in prog.callers_of("<%s as core::default::Default>::default" % EPT, crates=SHIPPED)}
+    if dflt <= {SHELL + "::default_exec_params"}:
+        chk.ok("R3.6", "default-callers", "only Shell::default_exec_params creates parameters from scratch", function=SHELL + "::default_exec_params")
+    else:
+        for fn in sorted(dflt - {SHELL + "::default_exec_params"}):
+            chk.fail("R3.6", fn, "fresh-params", "%s creates ExecutionParameters::default(): the caller's suppress_errexit (and descriptors) are dropped" % fn)
+    for b, bb, t in prog.callers_of(SHELL + "::default_exec_params", crates=SHIPPED):
+        fn = owner(b.name)
+        if fn in FRESH_PARAMS_ENTRY_POINTS:
+            chk.ok("R3.6", "entry:" + fn, FRESH_PARAMS_ENTRY_POINTS[fn], nontrivial=False, function=fn)
+        else:
+            chk.fail("R3.6", fn, "fresh-params-in-nested-context", "%s starts from default_exec_params() at %s: it is not a reviewed top-level entry point, so an enclosing "
+                     "errexit-exempt context is forgotten" % (fn, b.loc(t.line)))
 
     # ---- R3.5 nounset table -------------------------------------------------------------------------------------
     chk.rule("R3.5", "ParameterExpr variant → expand_parameter (strict) / expand_parameter_allowing_unset (tolerant) equals the "
